@@ -48,12 +48,14 @@ def _rtl_layer(item, seed):
                         random_seed=seed, avoid_intragroup_interaction=item["avoid"])
 
 
-def _rtl_shape(item):
+def _rtl_shape(item, reverse=False):
+  """Dict insertion order must not matter: keys are documented to be handled in sorted order."""
   shape = {}
-  if item["inc"]:
-    shape["increasing"] = [(None, g) for g in item["inc"]]
-  if item["unc"]:
-    shape["unconstrained"] = [(None, g) for g in item["unc"]]
+  keys = ["increasing", "unconstrained"]
+  for k in (keys[::-1] if reverse else keys):
+    groups = item["inc"] if k == "increasing" else item["unc"]
+    if groups:
+      shape[k] = [(None, g) for g in groups]
   return shape
 
 
@@ -64,9 +66,9 @@ def rtl_case(item, ctx=None):
   msgs = []
   total = 0
   for seed in item["seeds"]:
-    shape = _rtl_shape(item)
+    shape = _rtl_shape(item, reverse=bool(seed % 2))
     st = _rtl_layer(item, seed)._get_rtl_structure(shape)
-    st2 = _rtl_layer(item, seed)._get_rtl_structure(_rtl_shape(item))
+    st2 = _rtl_layer(item, seed)._get_rtl_structure(_rtl_shape(item, reverse=not bool(seed % 2)))
     total += 1
     if repr(st) != repr(st2):
       msgs.append("structure differs between two builds with seed %d" % seed)
@@ -106,14 +108,16 @@ def rtl_case(item, ctx=None):
     X = np.array(pts, dtype=np.float32)
     def feed(Xa):
       d, off = {}, 0
-      if item["inc"]:
-        d["increasing"] = []
-        for g in item["inc"]:
-          d["increasing"].append(tf.constant(Xa[:, off:off + g])); off += g
-      if item["unc"]:
-        d["unconstrained"] = []
-        for g in item["unc"]:
-          d["unconstrained"].append(tf.constant(Xa[:, off:off + g])); off += g
+      inc, unc = [], []
+      for g in item["inc"]:
+        inc.append(tf.constant(Xa[:, off:off + g])); off += g
+      for g in item["unc"]:
+        unc.append(tf.constant(Xa[:, off:off + g])); off += g
+      # 'unconstrained' inserted FIRST (what premade does when the first feature is not monotone)
+      if unc:
+        d["unconstrained"] = unc
+      if inc:
+        d["increasing"] = inc
       return d
     out = layer(feed(X))
     total += 1
